@@ -29,7 +29,7 @@ use crate::world::*;
 // ---------------------------------------------------------------------------
 // (a) file contents
 
-const LINES: [&str; 11] = [
+const LINES: [&str; 14] = [
     "",
     "  ",
     "\t",
@@ -41,6 +41,10 @@ const LINES: [&str; 11] = [
     "127.0.0.256",
     "127.0.0.1:80",
     "１２７.0.0.1",
+    // padding that is white space, but not ASCII white space
+    "\u{a0}127.0.0.3\u{a0}",
+    "127.0.0.4\u{b}",
+    "\u{3000}\u{2028}",
 ];
 
 fn reference(text: &str) -> Result<(Vec<IpAddr>, Option<usize>), (bool, usize)> {
@@ -179,6 +183,8 @@ enum Ev {
     Cdata,
     Tflush,
     Nak,
+    /// bringing up an uplink on address k fails from now on (socket bind fault) / works again
+    BindFault(usize),
 }
 
 #[derive(Clone)]
@@ -223,6 +229,7 @@ impl M {
         for i in 0..lists.len().min(6) {
             events.push(Ev::ReloadViaHousekeeping(i));
         }
+        events.push(Ev::BindFault(3));
         Self {
             name: format!("reload lists={} start={}", lists.len(), if latched { "S4 link 1 latched" } else { "S3 streaming" }),
             lists,
@@ -329,6 +336,11 @@ impl M {
         }
         for wl in &wanted_set {
             let Some(c) = w.connections.iter().find(|c| &&c.label == wl) else {
+                // a new address whose bring-up fails (injected bind fault) cannot be added; every other one must be
+                let failing = (0..MAX_LINKS).any(|k| w.bind_fail[k] && &&label_of(w, link_ip(k)) == wl);
+                if failing && !before.iter().any(|b| &&b.label == wl) {
+                    continue;
+                }
                 return Err(Fail::new("listed-address-not-added", ctx(wl)));
             };
             if !before.iter().any(|b| &&b.label == wl) {
@@ -343,7 +355,15 @@ impl M {
                 }
             }
         }
-        if w.connections.len() != wanted_set.len() || w.conn_io.len() != w.connections.len() {
+        // listed addresses that can exist after this reload: all but the new ones whose bring-up fails
+        let addable = wanted_set
+            .iter()
+            .filter(|wl| {
+                let failing = (0..MAX_LINKS).any(|k| w.bind_fail[k] && &&label_of(w, link_ip(k)) == *wl);
+                !(failing && !before.iter().any(|b| &&b.label == *wl))
+            })
+            .count();
+        if w.connections.len() != addable || w.conn_io.len() != w.connections.len() {
             return Err(Fail::new("link-set-differs-from-list", ctx(&format!("{} links, {} I/O entries, {} addresses listed", w.connections.len(), w.conn_io.len(), wanted_set.len()))));
         }
         // routing memory
@@ -439,11 +459,24 @@ impl Model for M {
                 }
                 Ok(())
             }
+            Ev::BindFault(k) => {
+                s.w.bind_fail[k] = !s.w.bind_fail[k];
+                Ok(())
+            }
             Ev::Reload(i) => {
                 let list = &self.lists[i];
                 let ips: SmallVec<IpAddr, 4> = list.iter().map(|k| link_ip(*k)).collect();
                 let before = snapshot(&s.w);
                 let before_last = s.w.last_selected_idx;
+                {
+                    let mut f = env.binder.fail.lock().unwrap();
+                    f.clear();
+                    for (k, b) in s.w.bind_fail.iter().enumerate() {
+                        if *b {
+                            f.push(link_ip(k));
+                        }
+                    }
+                }
                 let binder: Arc<dyn UplinkBinder> = env.binder.clone();
                 let receiver = s.w.receiver;
                 crate::util::set_now(s.w.now);
